@@ -55,13 +55,14 @@ def family (req : Json) : R Reply := do
       ("fullMastersFull", fullMastersFull cfg src), ("notdefOk", notdefOk cfg src), ("notdefJoint", notdefJoint cfg src),
       ("cu2quOk", cu2quOk cfg o.beforeCu2qu), ("uniformCustom", uniformCustom cfg), ("ordersCover", ordersCover cfg src),
       ("noSentinels", noSentinels src), ("alike", alike src), ("signsEqualNonzero", signsEqualNonzero src),
-      ("signStable", signStable src), ("instPlain", instPlain cfg), ("cu2quAlike", cu2quAlike cfg o.beforeCu2qu)]
+      ("signStable", signStable src), ("instPlain", instPlain cfg), ("cu2quAlike", cu2quAlike cfg o.beforeCu2qu),
+      ("orderTopo", orderTopo cfg src)]
     let get := fun (k : String) => (hs.find? (fun e => e.1 == k)).map (·.2) |>.getD false
     let sparseApplies := get "wfSrc" && get "heightsBelow" && get "locsOk" && get "fullMastersFull" && get "notdefOk" && get "cu2quOk"
     let twoApplies := cfg.ttf && cfg.inst.isNone && get "uniformCustom" && get "wfSrc" && get "noSentinels" &&
       get "ordersCover" && get "cu2quOk" && get "notdefJoint"
     let instApplies := cfg.inst.isSome && get "instPlain" && get "wfSrc" && get "alike" && get "signStable" &&
-      get "cu2quAlike"
+      get "orderTopo" && get "cu2quAlike"
     let hypInfo := Json.mkObj ((hs.map (fun e => (e.1, Json.bool e.2))) ++
       [("C09_sparse", Json.bool sparseApplies), ("C09_twoByTwo", Json.bool twoApplies),
        ("C09_pipeline_inst_partial", Json.bool instApplies)])
